@@ -263,6 +263,9 @@ class DataArray(Entity, DataSet):
                 del self._h5group["polynom_coefficients"]
         else:
             dtype = DataType.Double
+            # convert first, so that unusable values are refused before
+            # the stored coefficients are touched
+            coeff = np.array(coeff, dtype=dtype)
             self._h5group.write_data("polynom_coefficients", coeff, dtype)
         if self.file.auto_update_timestamps:
             self.force_updated_at()
